@@ -153,7 +153,7 @@ func c09Sched(c *ctx) {
 		blocked := 0
 		select {
 		case <-done:
-		case <-time.After(20 * time.Second):
+		case <-time.After(120 * time.Second): // a handful of calls that take milliseconds: generous even on a loaded machine
 			blocked = 1
 			mu.Lock()
 			aborted = true
@@ -283,7 +283,6 @@ func c09Stress(c *ctx) {
 	for y := 2015; y <= 2040; y++ {
 		ref[y] = yearDigest(calendar.NewLunarYear(y))
 	}
-	cy, _ := calendar.VerifCachedYear()
 	// shared read-only objects
 	sh, _ := safeSolar(2024, 2, 10, 23, 30, 0)
 	shLunar := sh.GetLunar()
@@ -292,6 +291,8 @@ func c09Stress(c *ctx) {
 	refShared := digest(shLunar, nil) + digest(shYear, nil) + digest(shMonth, nil) + digest(sh, nil)
 	sh2, _ := safeSolar(2024, 2, 10, 23, 30, 0)
 	shLunar = sh2.GetLunar() // a fresh object whose lazily created parts are still untouched
+	// the cache as the goroutines find it: read after the last unrecorded call of this (unregistered) goroutine
+	cy, _ := calendar.VerifCachedYear()
 	stop := time.Now().Add(dur)
 	var wg sync.WaitGroup
 	type res struct {
@@ -341,7 +342,7 @@ func c09Stress(c *ctx) {
 	blocked := 0
 	select {
 	case <-done:
-	case <-time.After(dur + 30*time.Second):
+	case <-time.After(dur + 180*time.Second):
 		blocked = 1
 	}
 	calendar.VerifHook = nil
